@@ -352,15 +352,13 @@ def includeEvents (base name : CStr) : List Ev :=
   let (l, ok) := loadEvents ex base
   l ++ (if ok then includeOpens ex base name else [])
 
+/-- `strip_name (inherit_file, inhbuf, sizeof inhbuf)`, on failure `strcpy (inhbuf, inherit_file)` -/
+def inhName (name : CStr) : CStr := (stripName name NV.Gen.C15.maxObjectNameSize).getD name
+
 def inheritEvents (base name : CStr) : List Ev :=
-  let ex := [base]
-  let (l, ok) := loadEvents ex base
-  if !ok then l
+  if !(loadEvents [base] base).2 then (loadEvents [base] base).1
   else
-    let inh := match stripName name NV.Gen.C15.maxObjectNameSize with           -- strip_name (inherit_file, inhbuf, …) else strcpy
-      | some s => s
-      | none => name
-    let (l2, ok2) := loadEvents ex inh
-    l ++ l2 ++ (if ok2 then (loadEvents ex base).1 else [])
+    (loadEvents [base] base).1 ++ (loadEvents [base] (inhName name)).1 ++
+      (if (loadEvents [base] (inhName name)).2 then (loadEvents [base] base).1 else [])
 
 end NV.C15
